@@ -203,6 +203,28 @@ def run(ctx):
                         )
     if n8 < 3:
         raise AnalysisError(f"only {n8} __getstate__ hash entries found in file classes", "redun/file.py")
+    # ---- C04.9 the validity walk reaches files inside every container the value model accepts --------
+    # is_valid_nested() walks iter_nested_value(); a leaf that is not a redun Value is a ProxyValue and always valid.  The child enumeration
+    # dispatches on the *exact* type (type(v) is dict, type(v) in (list, tuple, set)), so an OrderedDict / defaultdict / frozenset / list subclass
+    # is a leaf and a File inside it is never asked whether it is still valid.
+    r9 = ctx.rule("C04.9", "nested-value traversal descends into subclasses of the builtin containers", floor=1)
+    um9 = repo.mod("redun/utils.py")
+    ch9 = um9.func("iter_nested_value_children")
+    tvars = {src(a.targets[0]) for a in ast.walk(ch9) if isinstance(a, ast.Assign) and isinstance(a.value, ast.Call) and call_name(a.value) == "type"}
+    exact = []
+    for t in ast.walk(ch9):
+        if isinstance(t, ast.Compare) and len(t.ops) == 1 and isinstance(t.ops[0], (ast.Is, ast.In, ast.Eq)) and (src(t.left) in tvars or (isinstance(t.left, ast.Call) and call_name(t.left) == "type")):
+            kinds = src(t.comparators[0])
+            if any(k in kinds for k in ("dict", "list", "set", "tuple")):
+                exact.append(t)
+    r9.check(
+        not exact,
+        f"{um9.rel}:iter_nested_value_children:exact-type-dispatch",
+        f"iter_nested_value_children recognises containers by exact type (`{src(exact[0]) if exact else ''}`): an OrderedDict, defaultdict, frozenset or any subclass of list/dict/set is a leaf, so a File stored in one "
+        "is never validated -- a task returning OrderedDict(a=File(p)) is replayed from the cache after p was deleted",
+        um9.rel,
+        exact[0].lineno if exact else ch9.lineno,
+    )
 
 
 def _arm(facts) -> str:
